@@ -204,6 +204,30 @@ def S9():
                     ("decl", "Signal", "r1", B("+", V("x1"), V("y1"))), ("decl", "Signal", "r2", B("*", V("y1"), V("c")))], ["r1", "r2"])
 
 
+def S10():
+    """candidates for algebraic rewriting ("strength reduction"): every arithmetic operator with a constant that is a power of
+    two, its negative, or another identity-prone value on either side of a COMPUTED operand (a direct read of an input is
+    treated differently by the optimiser), over inputs that make the operand negative, odd and large."""
+    A, Bb = V("a"), V("b")
+    dom = {"a": [0, 1, -1, 2, -7, 5, -8, 2147483647, -2147483648], "b": [0, 1, -3]}
+    for opnd_tag, opnd in (("sum", B("+", A, Bb)), ("neg", B("*", A, I(-1))), ("input", A)):
+        for op in lang.ARITH:
+            for k in (2, 4, 8, 1024, -2, -4, 65536, 31, 32, 7):
+                for swap in (False, True):
+                    if op in ("<<", ">>", "**") and (k < 0 or k > 31 or (op == "**" and k > 5)) and not swap:
+                        continue
+                    if swap and op in ("<<", ">>", "**"):
+                        continue   # a run-time shift count / exponent outside the modelled fragment
+                    e = B(op, I(k), ("paren", opnd)) if swap else B(op, ("paren", opnd), I(k))
+                    used = {"a": dom["a"]}
+                    if opnd_tag == "sum":
+                        used["b"] = dom["b"]
+                    yield mk("S10", [("decl", "Signal", "r", e)], ["r"], extra_dom=used)
+                    if opnd_tag == "sum" and not swap:
+                        # the same through an int variable and a folded constant expression
+                        yield mk("S10", [("decl", "int", "kk", I(k)), ("decl", "Signal", "r", B(op, ("paren", opnd), V("kk")))], ["r"], extra_dom=used)
+
+
 def S7():
     A, C, Ii = V("a"), V("c"), V("i")
     progs = [
@@ -262,9 +286,10 @@ class C01(core.Check):
         out += list(S7())
         out += list(S8())
         out += list(S9())
+        out += list(S10())
         if tier == "thorough":
             # everything again without optimisation
-            out += [dict(c, opts={"optimize": False}) for c in list(out) if c["family"] in ("S1", "S2", "S4", "S6", "S7", "S8", "S9")]
+            out += [dict(c, opts={"optimize": False}) for c in list(out) if c["family"] in ("S1", "S2", "S4", "S6", "S7", "S8", "S9", "S10")]
         seen = set()
         uniq = []
         for c in out:
